@@ -346,9 +346,8 @@ What a stanza does not understand it keeps as `QXmppElement`s and writes back.  
 identity on trees: it keeps the tag, an `xmlns` attribute exactly when the element's namespace differs from its
 parent's, every other attribute with a NON-EMPTY value, the concatenation of the direct text children (written FIRST)
 and the child elements, recursively.  `normE pns` is that function for an element found where the namespace `pns` is in
-scope.  (As repaired by fixes/C02-qxmppelement-keeps-xmlns-undeclaration.diff: the code before it dropped an `xmlns=""`
-that un-declares the parent's namespace, so the element changed namespace — recorded findings
-`…:input-has-xmlns-undeclaration`.) -/
+scope.  (Since /repo 5969ee4; the code before it dropped an `xmlns=""` that un-declares the parent's namespace, so the
+element changed namespace — fixed findings `…:input-has-xmlns-undeclaration`.) -/
 
 def directText : List Node → Str
   | [] => []
